@@ -251,6 +251,11 @@ pub const ORDER_REVERSED: usize = 1;
 pub const ORDER_SORTED: usize = 2;
 pub const ORDER_SORTED_REV: usize = 3;
 static READDIR_ORDER: AtomicUsize = AtomicUsize::new(ORDER_SORTED);
+/// directory listings report no entry type (d_type = DT_UNKNOWN, as XFS without ftype, some NFS/FUSE/overlay setups do)
+static DTYPE_UNKNOWN: AtomicBool = AtomicBool::new(false);
+pub fn set_dtype_unknown(on: bool) {
+    DTYPE_UNKNOWN.store(on, SeqCst);
+}
 static NOATIME_PREFIX: Mutex<Option<Vec<u8>>> = Mutex::new(None);
 
 pub fn set_participant(tid: i32) {
@@ -270,7 +275,14 @@ pub fn participant() -> i32 {
 }
 pub fn set_op(op: u32) {
     OP.with(|o| o.set(op));
+    OP_EVENTS.with(|c| c.set(0));
 }
+
+thread_local! {
+    /// calls issued by the current operation of this participant (a runaway operation must not hang a whole check)
+    static OP_EVENTS: Cell<u64> = const { Cell::new(0) };
+}
+const RUNAWAY_LIMIT: u64 = 3_000_000;
 pub fn current_op() -> u32 {
     OP.with(|o| o.get())
 }
@@ -526,6 +538,16 @@ unsafe fn mediate(mut ev: Ev, real: &mut dyn FnMut(&mut Ev, bool) -> i64) -> i64
     }
     ev.tid = participant();
     ev.op = OP.with(|o| o.get());
+    let issued = OP_EVENTS.with(|c| {
+        c.set(c.get() + 1);
+        c.get()
+    });
+    if issued > RUNAWAY_LIMIT {
+        // not a verdict of any property by itself (C06 bounds steps properly): stop the worker rather than hang
+        let msg = b"MACHINERY: an operation issued more than 3000000 filesystem calls (runaway); worker stopped\n";
+        libc::syscall(libc::SYS_write, 2, msg.as_ptr(), msg.len());
+        libc::_exit(86);
+    }
     let ctl = controller();
     let action = match &ctl {
         Some(c) => c.before(&ev),
@@ -720,6 +742,17 @@ pub unsafe extern "C" fn creat(path: *const c_char, mode: mode_t) -> c_int {
 #[no_mangle]
 pub unsafe extern "C" fn creat64(path: *const c_char, mode: mode_t) -> c_int {
     creat(path, mode)
+}
+
+/// Process ids are reused: a process that takes over after another died may well carry the dead one's pid (the
+/// normal case for a service restarted in a container).  Every participant, whichever real process runs it, therefore
+/// sees the same pid.
+#[no_mangle]
+pub unsafe extern "C" fn getpid() -> libc::pid_t {
+    if participant() >= 0 && !IN_SHIM.try_with(|c| c.get()).unwrap_or(true) {
+        return 4242;
+    }
+    libc::syscall(libc::SYS_getpid) as libc::pid_t
 }
 
 #[no_mangle]
@@ -1772,7 +1805,11 @@ pub unsafe extern "C" fn readdir64(dirp: *mut libc::DIR) -> *mut libc::dirent64 
                 if e.is_null() {
                     break;
                 }
-                d.entries.push(*e);
+                let mut e = *e;
+                if DTYPE_UNKNOWN.load(SeqCst) {
+                    e.d_type = libc::DT_UNKNOWN;
+                }
+                d.entries.push(e);
             }
             match READDIR_ORDER.load(SeqCst) {
                 ORDER_REVERSED => d.entries.reverse(),
